@@ -863,6 +863,23 @@ def rule_process_state(ctx) -> None:
             ctx.violation("C01.HIST", ctx.okey(f"{fn.qual}/template-shared-by-shallow-copy"), fn.loc(x),
                           f"module-level template {how}: it holds lists / dicts of its own, which every receiver then shares - what one engine state appends (merge / split records, tallies) "
                           "shows up in the state and snapshots of every later one in the process, so a warm process and a fresh one write different bodies")
+    # object addresses: id(x) differs between a fresh and a warm process and is handed to the next object once x is dropped -
+    # as a key, a sort key or a logged value it makes the artefacts depend on what the process did before
+    def _addr_calls(node):
+        return [x for x in ast.walk(node) if isinstance(x, ast.Call) and isinstance(x.func, ast.Name) and x.func.id == "id" and len(x.args) == 1 and not x.keywords]
+    n_addr = 0
+    for mn in mods:
+        for fn in ctx.prog.module(mn).funcs.values():
+            if any(p == "id" for p in fn.params):
+                continue
+            for x in _addr_calls(fn.node):
+                n_addr += 1
+                ctx.violation("C01.HIST", ctx.okey(f"{fn.qual}/object-address-as-value"), fn.loc(x),
+                              f"`{src(x)[:40]}` takes an object's address on the canonical path: it differs from process to process and is reused after the object is dropped, so a key / order / "
+                              "record built from it makes a warm process answer differently from a fresh one")
+    probe = ast.parse("def _p(index):\n    return (getattr(index, '_uid', id(index)), 1)\n")
+    ctx.floor("C01.HIST", "positive control: id(obj) recognised in a synthetic key builder", len(_addr_calls(probe)), 1)
+    ctx.holds("C01.HIST", "canonical-path/no-object-addresses", "clematis/", f"{n_addr} id(obj) call(s) in {len(mods)} canonical-path modules")
     ctx.floor("C01.HIST", "functions on the canonical path scanned for state that outlives a call", n_fn, 150)
     ctx.holds("C01.HIST", "canonical-path/no-accidental-process-state", "clematis/engine",
               f"{n_fn} functions of {len(mods)} modules: {n_bad} mutable default arguments / class-level containers edited in place / nested module templates handed out by shallow copy; " + hazards.controls(ctx, "clematis.engine.health", ["state", "template"]))
